@@ -338,6 +338,12 @@ type pstate struct {
 	h string
 }
 
+func pmodelFor(immutable bool) porcupine.Model {
+	pm := pmodel
+	pm.Init = func() interface{} { m := model.New(immutable); return pstate{m, m.Hash()} }
+	return pm
+}
+
 var pmodel = porcupine.Model{
 	Init: func() interface{} { m := model.New(false); return pstate{m, m.Hash()} },
 	Step: func(state, input, output interface{}) (bool, interface{}) {
@@ -358,7 +364,9 @@ var pmodel = porcupine.Model{
 
 func linearizabilityHistory(run *evid.Run, idx int, overlaps map[string]int) {
 	rng := run.Rand(83, uint64(idx))
-	reg := ocimem.New()
+	// every fourth history runs in immutable-tags mode (deletes then walk the reference graph under the lock)
+	immutable := idx%4 == 3
+	reg := ocimem.NewWithConfig(&ocimem.Config{ImmutableTags: immutable})
 	env := model.NewEnv(reg)
 	env.NoWSize = true
 	t0 := time.Now()
@@ -505,7 +513,10 @@ func linearizabilityHistory(run *evid.Run, idx int, overlaps map[string]int) {
 	}
 	run.Count("overlapping_pairs", nOverlap)
 	run.Eval(1)
-	res, info := porcupine.CheckOperationsVerbose(pmodel, ops, 30*time.Second)
+	res, info := porcupine.CheckOperationsVerbose(pmodelFor(immutable), ops, 30*time.Second)
+	if immutable {
+		run.Count("porcupine_immutable_mode_histories", 1)
+	}
 	switch res {
 	case porcupine.Ok:
 		run.Count("porcupine_ok", 1)
@@ -525,7 +536,7 @@ func linearizabilityHistory(run *evid.Run, idx int, overlaps map[string]int) {
 			}
 		}
 		key := "linearizability/not-linearizable"
-		run.Violation(key, "porcupine: no linearization of this concurrent history is explained by the sequential reference model", map[string]any{"history": idx, "anomaly_class": culprit(hist), "operations_by_call_time_us": lines})
+		run.Violation(key, "porcupine: no linearization of this concurrent history is explained by the sequential reference model", map[string]any{"history": idx, "immutable_tags": immutable, "anomaly_class": culprit(hist), "operations_by_call_time_us": lines})
 	}
 	if idx < 2 {
 		var lines []string
